@@ -179,7 +179,7 @@ type vPlan struct {
 
 func vSchedRunPlans(c *vCtx, prop string, scns []vScn, quick, thorough []vPlan) {
 	plans := quick
-	budget := 15 * time.Minute
+	budget := 30 * time.Minute
 	if c.thorough() {
 		plans = thorough
 		budget = 40 * time.Minute
